@@ -32,7 +32,7 @@ use elvis_core::{
             socket::{ProtocolFamily, Socket, SocketType},
             verif as sv,
         },
-        Arp, Endpoint, Endpoints, SocketAPI,
+        Arp, Endpoint, Endpoints, SocketAPI, TcpListener, TcpStream,
     },
     Control, Protocol, Session, Shutdown,
 };
@@ -84,6 +84,12 @@ enum SEv {
     GapInject { completed_in_gap: bool },
     Read { local: Ep, remote: Ep, n: usize, bytes: Vec<u8> },
     ReadMsg { local: Ep, remote: Ep, bytes: Vec<u8> },
+    /// a read future of the reader of `remote` was dropped before it completed
+    Cancel { remote: Ep },
+    /// the server closed (`how` = close) or dropped its listening socket
+    CloseListen { ep: Ep, how: &'static str },
+    /// an accepted (server side) or connected (client side) socket was closed by its owner
+    CloseSock { local: Ep, remote: Ep },
     Note(String),
 }
 
@@ -211,8 +217,75 @@ struct Scn {
     intruder: bool,
     dur: u64,
     backlog: usize,
+    /// reader discipline of the server-side readers (see `Rd`)
+    rd: Rd,
+    /// which call the server-side readers use (see `RApi`)
+    rapi: RApi,
+    /// lifecycle: the server closes its LISTENING socket this long after the barrier, once every
+    /// early client is accepted (0 = never)
+    lclose: u64,
+    /// ... by `Socket::close` (true) or by dropping it (false; with `rapi=stream`: the `TcpListener`)
+    lhow_close: bool,
+    /// ... and listens again on the same port this long after the close (0 = never); the last
+    /// `late` clients connect only after that and are accepted through the second listener
+    relisten: u64,
+    late: usize,
+    /// the server-side reader of client `.0` closes its accepted socket once it has read `.1` bytes
+    sclose: Option<(usize, u64)>,
+    /// client `c` closes its socket right after its last write instead of keeping it to the end
+    cclose: Option<usize>,
     /// write sizes per client
     writes: Vec<Vec<u64>>,
+}
+
+/// Reader disciplines: how a server-side reader waits for its next read.  Everything but `Plain`
+/// DROPS read futures that have not completed; the property says such a read has consumed nothing.
+#[derive(Clone, Debug, PartialEq)]
+enum Rd {
+    /// every read is awaited to completion
+    Plain,
+    /// `tokio::time::timeout(d, read)`, d cycling through the list (microseconds; 0 = one poll)
+    Timeout(Vec<u64>),
+    /// `select! { biased; read, other }` where `other` becomes ready the n-th time it is polled
+    /// (it wakes itself): the read is dropped at its n-th suspension, n cycling through the list
+    Poll(Vec<u32>),
+    /// `select! { biased; read, tick }` where a ticker task sends on a channel every `period` us
+    Tick(u64),
+}
+
+/// Which call a server-side reader uses
+#[derive(Clone, Copy, Debug, PartialEq)]
+enum RApi {
+    /// `Socket::recv(n)`
+    Recv,
+    /// `Socket::recv_msg()`
+    Msg,
+    /// `TcpStream::read()` (server side through `TcpListener::bind` / `accept`)
+    Stream,
+}
+
+impl Rd {
+    fn show(&self) -> String {
+        let j = |v: Vec<String>| v.join("/");
+        match self {
+            Rd::Plain => "plain".into(),
+            Rd::Timeout(d) => format!("to:{}", j(d.iter().map(|x| x.to_string()).collect())),
+            Rd::Poll(n) => format!("poll:{}", j(n.iter().map(|x| x.to_string()).collect())),
+            Rd::Tick(p) => format!("tick:{}", p),
+        }
+    }
+    fn parse(v: &str) -> Option<Rd> {
+        if v == "plain" {
+            return Some(Rd::Plain);
+        }
+        let (k, rest) = v.split_once(':')?;
+        match k {
+            "to" => Some(Rd::Timeout(rest.split('/').map(|x| x.parse().ok()).collect::<Option<Vec<u64>>>().filter(|l| !l.is_empty())?)),
+            "poll" => Some(Rd::Poll(rest.split('/').map(|x| x.parse().ok()).collect::<Option<Vec<u32>>>().filter(|l| !l.is_empty())?)),
+            "tick" => Some(Rd::Tick(rest.parse().ok()?)),
+            _ => None,
+        }
+    }
 }
 
 impl Scn {
@@ -240,7 +313,7 @@ impl Scn {
             })
             .collect();
         format!(
-            "scn kind={} mode={} mtu={} lat={} jit={} drop={} dup={} maxloss={} seed={} gap={} start={} adelay={} rdelay={} rgap={} maxread={} minread={} gapinject={} intruder={} dur={} backlog={} writes={}",
+            "scn kind={} mode={} mtu={} lat={} jit={} drop={} dup={} maxloss={} seed={} gap={} start={} adelay={} rdelay={} rgap={} maxread={} minread={} gapinject={} intruder={} dur={} backlog={}{} writes={}",
             if self.tcp { "tcp" } else { "udp" },
             match self.mode {
                 RtMode::Paused => "paused".to_string(),
@@ -264,11 +337,36 @@ impl Scn {
             self.intruder as u8,
             self.dur,
             self.backlog,
+            self.extra_fields(),
             w.join(";")
         )
     }
-    fn parse(line: &str) -> Option<Scn> {
-        let mut s = Scn {
+    /// reader-discipline and lifecycle fields, printed only when they differ from the defaults
+    /// (scenario lines of earlier versions stay byte-identical)
+    fn extra_fields(&self) -> String {
+        let mut f = String::new();
+        if self.rd != Rd::Plain {
+            f.push_str(&format!(" rd={}", self.rd.show()));
+        }
+        if self.rapi != RApi::Recv {
+            f.push_str(&format!(" rapi={}", if self.rapi == RApi::Msg { "msg" } else { "stream" }));
+        }
+        if self.lclose > 0 {
+            f.push_str(&format!(" lclose={} lhow={}", self.lclose, if self.lhow_close { "close" } else { "drop" }));
+        }
+        if self.relisten > 0 {
+            f.push_str(&format!(" relisten={} late={}", self.relisten, self.late));
+        }
+        if let Some((c, b)) = self.sclose {
+            f.push_str(&format!(" sclose={}:{}", c, b));
+        }
+        if let Some(c) = self.cclose {
+            f.push_str(&format!(" cclose={}", c));
+        }
+        f
+    }
+    fn defaults() -> Scn {
+        Scn {
             tcp: true,
             mode: RtMode::Paused,
             mtu: 1500,
@@ -289,8 +387,19 @@ impl Scn {
             intruder: false,
             dur: 30_000_000,
             backlog: 64,
+            rd: Rd::Plain,
+            rapi: RApi::Recv,
+            lclose: 0,
+            lhow_close: false,
+            relisten: 0,
+            late: 0,
+            sclose: None,
+            cclose: None,
             writes: vec![],
-        };
+        }
+    }
+    fn parse(line: &str) -> Option<Scn> {
+        let mut s = Scn::defaults();
         for w in line.split_whitespace().skip(1) {
             let (k, v) = w.split_once('=')?;
             match k {
@@ -314,6 +423,24 @@ impl Scn {
                 "intruder" => s.intruder = v == "1",
                 "dur" => s.dur = v.parse().ok()?,
                 "backlog" => s.backlog = v.parse().ok()?,
+                "rd" => s.rd = Rd::parse(v)?,
+                "rapi" => {
+                    s.rapi = match v {
+                        "recv" => RApi::Recv,
+                        "msg" => RApi::Msg,
+                        "stream" => RApi::Stream,
+                        _ => return None,
+                    }
+                }
+                "lclose" => s.lclose = v.parse().ok()?,
+                "lhow" => s.lhow_close = v == "close",
+                "relisten" => s.relisten = v.parse().ok()?,
+                "late" => s.late = v.parse().ok()?,
+                "sclose" => {
+                    let (c, b) = v.split_once(':')?;
+                    s.sclose = Some((c.parse().ok()?, b.parse().ok()?));
+                }
+                "cclose" => s.cclose = Some(v.parse().ok()?),
                 "writes" => {
                     for c in v.split(';') {
                         let mut ws: Vec<u64> = vec![];
@@ -335,13 +462,17 @@ impl Scn {
                 _ => {}
             }
         }
-        if s.writes.is_empty() {
+        if s.writes.is_empty() || s.late > s.writes.len() || (s.late > 0 && s.relisten == 0) {
             return None;
         }
         Some(s)
     }
     fn n_clients(&self) -> usize {
         self.writes.len()
+    }
+    /// clients that connect only after the server listens for the second time
+    fn is_late(&self, c: usize) -> bool {
+        self.relisten > 0 && c + self.late >= self.n_clients()
     }
     fn total(&self, c: usize) -> u64 {
         self.writes[c].iter().sum()
@@ -382,6 +513,10 @@ impl Protocol for ClientApp {
         if self.scn.start > 0 {
             sleep(Duration::from_micros(self.scn.start * self.idx as u64)).await;
         }
+        if self.scn.is_late(self.idx) {
+            // connects only once the server listens again (second listener)
+            sleep(Duration::from_micros(self.scn.lclose + self.scn.relisten + 4 * self.scn.lat + 5000)).await;
+        }
         let server = Endpoint::new(Ipv4Address::from(SERVER_ADDR), SERVER_PORT);
         if sock.connect(server).await.is_err() {
             slog(SEv::Note(format!("client {} connect failed", self.idx)));
@@ -412,6 +547,13 @@ impl Protocol for ClientApp {
                     }
                 }
             }
+        } else if self.scn.cclose == Some(self.idx) {
+            // a client that is done closes its socket while the others go on
+            let me = Ep::new(u32::from_be_bytes(client_addr(self.idx)), 0);
+            slog(SEv::CloseSock { local: me, remote: ep_of(server) });
+            sock.close();
+            let _ = rx.recv().await;
+            return Ok(());
         } else {
             // keep the socket (and with it the session) alive until the simulation ends
             let _ = rx.recv().await;
@@ -464,34 +606,182 @@ fn read_sizes(scn: &Scn) -> Vec<usize> {
     all.iter().copied().filter(|x| (scn.maxread == 0 || *x as u64 <= scn.maxread) && *x as u64 >= scn.minread).collect()
 }
 
-async fn stream_reader(mut sock: Socket, local: Ep, remote: Ep, scn: Arc<Scn>, done: Arc<AtomicUsize>, shutdown: Shutdown) {
+/// "Other work" of a reading task: becomes ready the n-th time it is polled and wakes itself until
+/// then, so the `select!` around it is polled again and again and the read next to it is dropped
+/// at its n-th suspension point
+struct OtherWork(u32);
+impl std::future::Future for OtherWork {
+    type Output = ();
+    fn poll(mut self: std::pin::Pin<&mut Self>, cx: &mut std::task::Context<'_>) -> std::task::Poll<()> {
+        self.0 = self.0.saturating_sub(1);
+        if self.0 == 0 {
+            std::task::Poll::Ready(())
+        } else {
+            cx.waker().wake_by_ref();
+            std::task::Poll::Pending
+        }
+    }
+}
+
+/// Executes reads under a reader discipline (`Rd`)
+struct Waiter {
+    rd: Rd,
+    round: usize,
+    tick: Option<tokio::sync::mpsc::Receiver<()>>,
+    /// consecutive dropped reads (pause between attempts grows with it, so a reader that waits
+    /// for data that never comes does not spin through the whole simulated time)
+    dropped_in_a_row: u32,
+    last_progress: tokio::time::Instant,
+}
+
+impl Waiter {
+    fn new(rd: &Rd) -> Waiter {
+        let tick = if let Rd::Tick(period) = rd {
+            let (tx, rx) = tokio::sync::mpsc::channel(1);
+            let period = Duration::from_micros((*period).max(1));
+            tokio::spawn(async move {
+                loop {
+                    sleep(period).await;
+                    if let Err(tokio::sync::mpsc::error::TrySendError::Closed(_)) = tx.try_send(()) {
+                        break;
+                    }
+                }
+            });
+            Some(rx)
+        } else {
+            None
+        };
+        Waiter { rd: rd.clone(), round: 0, tick, dropped_in_a_row: 0, last_progress: tokio::time::Instant::now() }
+    }
+    /// `Some(output)` when `fut` completed, `None` when it was dropped before completing
+    async fn run<F: std::future::Future>(&mut self, fut: F) -> Option<F::Output> {
+        let k = self.round;
+        self.round += 1;
+        let r = match &self.rd {
+            Rd::Plain => Some(fut.await),
+            Rd::Timeout(ds) => tokio::time::timeout(Duration::from_micros(ds[k % ds.len()]), fut).await.ok(),
+            Rd::Poll(ns) => {
+                let other = OtherWork(ns[k % ns.len()].max(1));
+                tokio::select! {
+                    biased;
+                    r = fut => Some(r),
+                    _ = other => None,
+                }
+            }
+            Rd::Tick(_) => {
+                let rx = self.tick.as_mut().unwrap();
+                tokio::select! {
+                    biased;
+                    r = fut => Some(r),
+                    _ = rx.recv() => None,
+                }
+            }
+        };
+        r
+    }
+    fn progressed(&mut self) {
+        self.dropped_in_a_row = 0;
+        self.last_progress = tokio::time::Instant::now();
+    }
+    /// after a dropped read: "do the other work".  Under the poll-count discipline that means
+    /// letting some time pass (nothing else would, on the paused clock).  Under a time-out or a
+    /// ticker time passes by itself, and a pause longer than the tick period would let a tick
+    /// pile up before every attempt: every read would be dropped at its first poll, for ever.
+    async fn pause(&mut self) {
+        self.dropped_in_a_row += 1;
+        if let Rd::Poll(_) = self.rd {
+            let us = (100u64 << (self.dropped_in_a_row - 1).min(8)).min(20_000);
+            sleep(Duration::from_micros(us)).await;
+        } else {
+            tokio::task::yield_now().await;
+        }
+    }
+    /// has nothing arrived for so long that the reader gives up (and drains the socket)?
+    fn starved(&self, scn: &Scn) -> bool {
+        let limit = if scn.mode == RtMode::Paused { 30_000_000 } else { 6_000_000 };
+        self.rd != Rd::Plain && self.last_progress.elapsed() > Duration::from_micros(limit)
+    }
+}
+
+async fn read_once(stream: &mut TcpStream, api: RApi, n: usize) -> Result<Vec<u8>, elvis_core::protocols::socket_api::socket::SocketError> {
+    match api {
+        RApi::Recv => stream.local_socket.recv(n).await,
+        RApi::Msg => stream.local_socket.recv_msg().await.map(|m| m.to_vec()),
+        RApi::Stream => stream.read().await,
+    }
+}
+
+fn log_read(api: RApi, local: Ep, remote: Ep, n: usize, bytes: Vec<u8>) {
+    match api {
+        RApi::Recv => slog(SEv::Read { local, remote, n, bytes }),
+        _ => slog(SEv::ReadMsg { local, remote, bytes }),
+    };
+}
+
+async fn stream_reader(mut stream: TcpStream, local: Ep, remote: Ep, scn: Arc<Scn>, done: Arc<AtomicUsize>, shutdown: Shutdown, accepted: Arc<AtomicUsize>) {
     let client = (remote.addr & 0xff) as usize - 10;
     if scn.rdelay > 0 {
         sleep(Duration::from_micros(scn.rdelay)).await;
     }
     let total = if client < scn.n_clients() { scn.total(client) as usize } else { 0 };
     let extra = if scn.gapinject { GAP_MARK.len() } else { 0 };
+    let stop_at = match scn.sclose {
+        Some((c, b)) if c == client => (b as usize).min(total),
+        _ => total + extra,
+    };
     let sizes = read_sizes(&scn);
     let mut rng = Rng::new(scn.seed ^ (0x5151 + client as u64));
     let mut got = 0usize;
-    while got < total + extra {
+    let mut waiter = Waiter::new(&scn.rd);
+    while got < stop_at && !waiter.starved(&scn) {
         let n = *rng.pick(&sizes);
-        match sock.recv(n).await {
-            Ok(b) => {
+        match waiter.run(read_once(&mut stream, scn.rapi, n)).await {
+            Some(Ok(b)) => {
+                if !b.is_empty() {
+                    waiter.progressed();
+                }
                 got += b.len();
-                slog(SEv::Read { local, remote, n, bytes: b });
+                log_read(scn.rapi, local, remote, n, b);
             }
-            Err(_) => break,
+            Some(Err(_)) => break,
+            None => {
+                slog(SEv::Cancel { remote });
+                waiter.pause().await;
+            }
         }
         if scn.rgap > 0 {
             sleep(Duration::from_micros(scn.rgap)).await;
         }
     }
+    if scn.rd != Rd::Plain && got < stop_at {
+        // the reader gave up: whatever still sits in the socket counts as delivered
+        stream.local_socket.set_blocking(false);
+        if let Ok(b) = stream.local_socket.recv(1 << 30).await {
+            if !b.is_empty() {
+                slog(SEv::Read { local, remote, n: 1 << 30, bytes: b });
+            }
+        }
+    }
+    if matches!(scn.sclose, Some((c, _)) if c == client) {
+        // this reader has seen enough: it closes its socket while the other connections go on --
+        // once the server has accepted everybody (what the peer sends to a closed socket is taken
+        // for a new connection request, and the accept loop would pick that up instead of a client)
+        for _ in 0..40_000 {
+            if accepted.load(Ordering::SeqCst) >= scn.n_clients() {
+                break;
+            }
+            sleep(Duration::from_micros(500)).await;
+        }
+        slog(SEv::CloseSock { local, remote });
+        stream.local_socket.close();
+        finish(&scn, &done, &shutdown).await;
+        return;
+    }
     finish(&scn, &done, &shutdown).await;
     // keep the socket open: dropping it removes the session
     let mut rx = shutdown.receiver();
     let _ = rx.recv().await;
-    drop(sock);
+    drop(stream);
 }
 
 async fn dgram_reader(mut sock: Socket, local: Ep, remote: Ep, scn: Arc<Scn>, done: Arc<AtomicUsize>, shutdown: Shutdown) {
@@ -501,67 +791,148 @@ async fn dgram_reader(mut sock: Socket, local: Ep, remote: Ep, scn: Arc<Scn>, do
     let _ = sock.send(b"reply".to_vec());
     let mut got = 0usize;
     let mut rx = shutdown.receiver();
+    let mut waiter = Waiter::new(&scn.rd);
     loop {
-        tokio::select! {
+        let r = tokio::select! {
             _ = rx.recv() => break,
-            m = sock.recv_msg() => match m {
-                Ok(m) => {
-                    got += 1;
-                    slog(SEv::ReadMsg { local, remote, bytes: m.to_vec() });
-                    if got == expect && scn.drop == 0 && scn.dup == 0 {
-                        finish(&scn, &done, &shutdown).await;
-                    }
+            r = waiter.run(sock.recv_msg()) => r,
+        };
+        match r {
+            Some(Ok(m)) => {
+                got += 1;
+                waiter.progressed();
+                slog(SEv::ReadMsg { local, remote, bytes: m.to_vec() });
+                if got == expect && scn.drop == 0 && scn.dup == 0 {
+                    finish(&scn, &done, &shutdown).await;
                 }
-                Err(_) => break,
+            }
+            Some(Err(_)) => break,
+            None => {
+                slog(SEv::Cancel { remote });
+                waiter.pause().await;
+                if waiter.starved(&scn) && scn.drop == 0 && scn.dup == 0 {
+                    // give up on a loss-free network: the missing datagrams are reported
+                    finish(&scn, &done, &shutdown).await;
+                    break;
+                }
             }
         }
     }
     drop(sock);
 }
 
+/// logged right before the simulation is told to shut down: `SocketAPI::shutdown` then empties the
+/// session table, so what still arrives (the peer of a closed socket may still be writing) is no
+/// longer part of the event sequence that is replayed through the model
+const SHUTDOWN_MARK: &str = "<<shutdown requested>>";
+
 async fn finish(scn: &Scn, done: &AtomicUsize, shutdown: &Shutdown) {
     if done.fetch_add(1, Ordering::SeqCst) + 1 == scn.n_clients() {
         // let acknowledgements and stray frames settle
         sleep(Duration::from_micros(4 * (scn.lat + scn.jit) + 20_000)).await;
+        slog(SEv::Note(SHUTDOWN_MARK.to_string()));
         shutdown.shut_down();
+    }
+}
+
+/// the server's listening socket: a plain `Socket`, or (reader API `stream`) a `TcpListener`
+enum Listener {
+    Sock(Socket),
+    Tcp(TcpListener),
+}
+
+async fn open_listener(scn: &Scn, machine: &Arc<Machine>) -> Option<Listener> {
+    let lep = Endpoint::new(Ipv4Address::CURRENT_NETWORK, SERVER_PORT);
+    if scn.tcp && scn.rapi == RApi::Stream {
+        let l = TcpListener::bind(lep, machine.clone()).await.ok()?;
+        slog(SEv::Listen { ep: ep_of(lep), backlog: 5000 });
+        return Some(Listener::Tcp(l));
+    }
+    let sockets = machine.protocol::<SocketAPI>().unwrap();
+    let kind = if scn.tcp { SocketType::Stream } else { SocketType::Datagram };
+    let mut lsock = sockets.new_socket(ProtocolFamily::INET, kind, machine.clone()).await.ok()?;
+    lsock.bind(lep).ok()?;
+    lsock.listen(scn.backlog).ok()?;
+    slog(SEv::Listen { ep: ep_of(lep), backlog: scn.backlog });
+    Some(Listener::Sock(lsock))
+}
+
+/// accept `k` connections and give each its reader task
+async fn accept_loop(lst: &mut Listener, k: usize, scn: &Arc<Scn>, done: &Arc<AtomicUsize>, shutdown: &Shutdown, accepted: &Arc<AtomicUsize>) {
+    for _ in 0..k {
+        let sock = match lst {
+            Listener::Sock(l) => match l.accept().await {
+                Ok(s) => s,
+                Err(_) => break,
+            },
+            Listener::Tcp(l) => match l.accept().await {
+                Ok(s) => s.local_socket,
+                Err(_) => break,
+            },
+        };
+        let Some((local, remote)) = LAST_ACCEPT.with(|p| p.take()) else { break };
+        if let Some(rx) = GAP_DONE.lock().unwrap().take() {
+            let _ = rx.recv_timeout(Duration::from_secs(5));
+        }
+        accepted.fetch_add(1, Ordering::SeqCst);
+        let (scn, done, sd) = (scn.clone(), done.clone(), shutdown.clone());
+        if scn.tcp {
+            tokio::spawn(stream_reader(TcpStream { local_socket: sock }, local, remote, scn, done, sd, accepted.clone()));
+        } else {
+            tokio::spawn(dgram_reader(sock, local, remote, scn, done, sd));
+        }
     }
 }
 
 #[async_trait::async_trait]
 impl Protocol for ServerApp {
     async fn start(&self, shutdown: Shutdown, initialized: Arc<Barrier>, machine: Arc<Machine>) -> Result<(), StartError> {
-        let sockets = machine.protocol::<SocketAPI>().unwrap();
-        let kind = if self.scn.tcp { SocketType::Stream } else { SocketType::Datagram };
-        let mut lsock = sockets.new_socket(ProtocolFamily::INET, kind, machine.clone()).await.unwrap();
-        let lep = Endpoint::new(Ipv4Address::CURRENT_NETWORK, SERVER_PORT);
-        lsock.bind(lep).unwrap();
-        lsock.listen(self.scn.backlog).unwrap();
-        slog(SEv::Listen { ep: ep_of(lep), backlog: self.scn.backlog });
+        let scn = &self.scn;
+        let mut lst = open_listener(scn, &machine).await.expect("the server can listen");
         *SERVER_MACHINE.lock().unwrap() = Some(machine.clone());
         initialized.wait().await;
-        if self.scn.adelay > 0 {
-            sleep(Duration::from_micros(self.scn.adelay)).await;
+        let t0 = tokio::time::Instant::now();
+        if scn.adelay > 0 {
+            sleep(Duration::from_micros(scn.adelay)).await;
         }
         let done = Arc::new(AtomicUsize::new(0));
-        for _ in 0..self.scn.n_clients() {
-            let sock = match lsock.accept().await {
-                Ok(s) => s,
-                Err(_) => break,
-            };
-            let Some((local, remote)) = LAST_ACCEPT.with(|p| p.take()) else { break };
-            if let Some(rx) = GAP_DONE.lock().unwrap().take() {
-                let _ = rx.recv_timeout(Duration::from_secs(5));
+        let accepted = Arc::new(AtomicUsize::new(0));
+        let late = if scn.relisten > 0 { scn.late } else { 0 };
+        accept_loop(&mut lst, scn.n_clients() - late, scn, &done, &shutdown, &accepted).await;
+        let mut rx = shutdown.receiver();
+        if scn.lclose == 0 {
+            let _ = rx.recv().await;
+            drop(lst);
+            return Ok(());
+        }
+        // lifecycle: the listening socket goes away while the accepted connections carry data
+        tokio::time::sleep_until(t0 + Duration::from_micros(scn.lclose)).await;
+        let lep = Ep::new(0, SERVER_PORT);
+        match lst {
+            Listener::Sock(l) if scn.lhow_close => {
+                slog(SEv::CloseListen { ep: lep, how: "close" });
+                l.close();
             }
-            let (scn, done, sd) = (self.scn.clone(), done.clone(), shutdown.clone());
-            if self.scn.tcp {
-                tokio::spawn(stream_reader(sock, local, remote, scn, done, sd));
-            } else {
-                tokio::spawn(dgram_reader(sock, local, remote, scn, done, sd));
+            l => {
+                slog(SEv::CloseListen { ep: lep, how: "drop" });
+                drop(l);
             }
         }
-        let mut rx = shutdown.receiver();
+        if scn.relisten > 0 {
+            sleep(Duration::from_micros(scn.relisten)).await;
+            match open_listener(scn, &machine).await {
+                Some(mut l2) => {
+                    accept_loop(&mut l2, late, scn, &done, &shutdown, &accepted).await;
+                    let _ = rx.recv().await;
+                    drop(l2);
+                    return Ok(());
+                }
+                None => {
+                    slog(SEv::Note("relisten-refused".to_string()));
+                }
+            }
+        }
         let _ = rx.recv().await;
-        drop(lsock);
         Ok(())
     }
     fn demux(&self, _m: Message, _c: Arc<dyn Session>, _k: Control, _mc: Arc<Machine>) -> Result<(), DemuxError> {
@@ -752,6 +1123,7 @@ fn exec_stack(line: &str, rep: &mut CaseReport) {
         let has_rx: std::collections::HashSet<usize> = run.events.iter().filter_map(|e| if let SEv::Rx { demux, .. } = e { Some(*demux) } else { None }).collect();
         for (i, e) in run.events.iter().enumerate() {
             match e {
+                SEv::Note(s) if s == SHUTDOWN_MARK => break,
                 SEv::Listen { ep, backlog } => rep.line(format!("listen {} {}", ep, backlog), "ok"),
                 SEv::NewConn { local, remote } if local.addr == server_addr => rep.line(format!("notify {} {}", local, remote), "ok"),
                 SEv::Demux { local, remote, bytes } if local.addr == server_addr && !has_rx.contains(&i) => {
@@ -771,6 +1143,8 @@ fn exec_stack(line: &str, rep: &mut CaseReport) {
                 SEv::Accepted { local, remote } => rep.line(format!("replay {} {}", local, remote), "replayed ok"),
                 SEv::Read { local, remote, n, bytes } => rep.line(format!("recv {} {} {}", local, remote, n), format!("r {} {}", bytes.len(), digest(bytes))),
                 SEv::ReadMsg { local, remote, bytes } if local.addr == server_addr => rep.line(format!("recvmsg {} {}", local, remote), format!("m {} {}", bytes.len(), digest(bytes))),
+                SEv::CloseListen { ep, .. } => rep.line(format!("closel {}", ep), "closed"),
+                SEv::CloseSock { local, remote } if local.addr == server_addr => rep.line(format!("close {} {}", local, remote), "closed"),
                 _ => {}
             }
         }
@@ -783,6 +1157,45 @@ fn exec_stack(line: &str, rep: &mut CaseReport) {
         }
     }
     rep.count_n("session.full", n_full);
+    let n_cancel = run.events.iter().filter(|e| matches!(e, SEv::Cancel { .. })).count() as u64;
+    if scn.rd != Rd::Plain {
+        rep.count(format!("reader.{}.{}", match scn.rd { Rd::Timeout(_) => "timeout", Rd::Poll(_) => "poll", Rd::Tick(_) => "tick", Rd::Plain => "plain" }, match scn.rapi { RApi::Recv => "recv", RApi::Msg => "recv_msg", RApi::Stream => "TcpStream::read" }));
+        rep.count_n("reads.dropped-before-completion", n_cancel);
+    }
+    let listener_closed_at = run.events.iter().position(|e| matches!(e, SEv::CloseListen { .. }));
+    if let Some(at) = listener_closed_at {
+        rep.count(format!("lifecycle.listener-{}", if scn.lhow_close { "closed" } else { "dropped" }));
+        // chunks that reached the server's socket layer after its listening socket was gone
+        let after = run.events[at..].iter().filter(|e| matches!(e, SEv::Demux { local, .. } if local.addr == server_addr)).count() as u64;
+        rep.count_n("lifecycle.chunks-after-listener-close", after);
+        if scn.relisten > 0 {
+            rep.count("lifecycle.relisten");
+        }
+    }
+    if scn.sclose.is_some() {
+        rep.count("lifecycle.accepted-socket-closed");
+    }
+    if scn.cclose.is_some() {
+        rep.count("lifecycle.client-socket-closed");
+    }
+    let relisten_refused = run.events.iter().any(|e| matches!(e, SEv::Note(s) if s == "relisten-refused"));
+    if relisten_refused {
+        rep.count("lifecycle.relisten-refused");
+    }
+    // what went on around the streams (part of the identity of a stream failure)
+    let context = {
+        let mut c = String::new();
+        if scn.rd != Rd::Plain && n_cancel > 0 {
+            c.push_str(" reads-dropped-before-completion");
+        }
+        if listener_closed_at.is_some() {
+            c.push_str(" listener-closed");
+        }
+        if scn.sclose.is_some() || scn.cclose.is_some() {
+            c.push_str(" another-socket-closed");
+        }
+        c
+    };
     // identity of a channel overrun: how many chunks were waiting, unread, when the first one
     // was dropped (the capacity, if the reader had not started yet)
     let full_ident: String = {
@@ -867,15 +1280,26 @@ fn exec_stack(line: &str, rep: &mut CaseReport) {
         // (2) per connection: bytes read = concatenation of the client's writes in program order
         for c in 0..scn.n_clients() {
             let caddr = u32::from_be_bytes(client_addr(c));
+            if relisten_refused && scn.is_late(c) {
+                // the second listen on the port was refused: nobody accepted this client
+                continue;
+            }
             let mut got: Vec<u8> = vec![];
             for e in &run.events {
-                if let SEv::Read { remote, bytes, .. } = e {
-                    if remote.addr == caddr {
-                        got.extend_from_slice(bytes);
-                    }
+                match e {
+                    SEv::Read { remote, bytes, .. } | SEv::ReadMsg { remote, bytes, .. } if remote.addr == caddr => got.extend_from_slice(bytes),
+                    _ => {}
                 }
             }
             let mut want = scn.stream(c);
+            if let Some((sc, b)) = scn.sclose {
+                if sc == c {
+                    // this reader closed its socket after `b` bytes: what it read until then is
+                    // the beginning of the stream, at least `b` bytes of it
+                    let upto = got.len().max((b as usize).min(want.len())).min(want.len());
+                    want.truncate(upto);
+                }
+            }
             if scn.gapinject {
                 // the injected chunk was handed over after everything stored before accept():
                 // it must come out after those bytes (here: after the whole stream, since the
@@ -895,13 +1319,18 @@ fn exec_stack(line: &str, rep: &mut CaseReport) {
                     ("writes reached Tcb::send out of program order", "stream-reordered handoff")
                 } else if n_full > 0 {
                     ("a chunk found the socket's channel full and was dropped (slow reader)", full_ident.as_str())
-                } else if run.status == "timedout" && got.len() < want.len() && got[..] == want[..got.len()] {
+                } else if (run.status == "timedout" || scn.rd != Rd::Plain || listener_closed_at.is_some()) && got.len() < want.len() && got[..] == want[..got.len()] {
                     ("the stream stopped short (a correct prefix arrived)", "stream-incomplete")
                 } else {
                     ("the stream differs", "stream-mismatch")
                 };
+                let ident = if ident.starts_with("stream-incomplete") || ident.starts_with("stream-mismatch") { format!("{}{}", ident, context) } else { ident.to_string() };
+                let lost_after_close = match listener_closed_at {
+                    Some(_) if got.len() < want.len() && got[..] == want[..got.len()] => "; the connection was accepted before the server closed its listening socket and stopped delivering afterwards",
+                    _ => "",
+                };
                 rep.fail(
-                    format!("client {}: read {} bytes, expected {}, first difference at offset {} — {}; order at Tcb::send {}; channel-full drops {}; run {} `{}`", c, got.len(), want.len(), first, what, show_perm(&perms[c]), n_full, run.status, line),
+                    format!("client {}: read {} bytes, expected {}, first difference at offset {} — {}{}; {} reads dropped before completion; order at Tcb::send {}; channel-full drops {}; run {} `{}`", c, got.len(), want.len(), first, what, lost_after_close, n_cancel, show_perm(&perms[c]), n_full, run.status, line),
                     ident,
                 );
             }
@@ -946,18 +1375,23 @@ fn exec_stack(line: &str, rep: &mut CaseReport) {
             // loss-free: every datagram arrives exactly once
             for c in 0..scn.n_clients() {
                 let caddr = u32::from_be_bytes(client_addr(c));
+                if relisten_refused && scn.is_late(c) {
+                    continue;
+                }
                 let k = run.events.iter().filter(|e| matches!(e, SEv::ReadMsg { local, remote, .. } if local.addr == server_addr && remote.addr == caddr)).count();
                 let want = (0..scn.writes[c].len()).filter(|i| scn.fits(c, *i)).count();
                 if k != want && n_full == 0 {
                     ok = false;
-                    rep.fail(format!("client {}: {} of {} sendable datagrams arrived on a loss-free network in `{}`", c, k, want, line), "dgram-missing");
+                    rep.fail(format!("client {}: {} of {} sendable datagrams arrived on a loss-free network ({} reads dropped before completion) in `{}`", c, k, want, n_cancel, line), format!("dgram-missing{}", context));
                 }
             }
         }
     }
     for e in &run.events {
         if let SEv::Note(s) = e {
-            rep.notes.push(s.clone());
+            if s != SHUTDOWN_MARK {
+                rep.notes.push(s.clone());
+            }
         }
     }
     if ok {
@@ -1040,6 +1474,7 @@ fn gen_stack(rng: &mut Rng, mode: RtMode, tcp: bool, flavour_set: bool) -> Scn {
         dur: if paused { 60_000_000 } else { 6_000_000 },
         backlog: 64,
         writes,
+        ..Scn::defaults()
     }
 }
 
@@ -1102,7 +1537,197 @@ fn gen_burst(rng: &mut Rng, i: u64) -> Scn {
         dur: if paused { 60_000_000 } else { 8_000_000 },
         backlog: 8,
         writes,
+        ..Scn::defaults()
     }
+}
+
+/// write sizes for the discipline / lifecycle families: small enough that a connection never has
+/// more than ~150 chunks in flight (far from the 255-slot socket channel, F-C02-3/7)
+fn gen_small_writes(rng: &mut Rng, k: usize, mtu: u16) -> Vec<u64> {
+    let budget = 150 * (mtu as u64 - 40);
+    let mut left = budget;
+    (0..k)
+        .map(|_| {
+            let s = match rng.below(6) {
+                0 => 1,
+                1 => rng.range(2, 9),
+                2 | 3 => rng.range(10, 120),
+                4 => rng.range(121, 1200),
+                _ => rng.range(1201, 3000),
+            }
+            .min(left.max(1));
+            left = left.saturating_sub(s);
+            s
+        })
+        .collect()
+}
+
+fn gen_rd(rng: &mut Rng, which: u64, gap: u64, lat: u64) -> Rd {
+    match which % 3 {
+        0 => {
+            // time-outs from "one poll" to generous; some equal to the rhythm of the writes, so
+            // that (on the paused clock) a deadline falls into the very instant data arrives
+            let pool = [0u64, 1, 50, 200, 1000, 5000, 50_000, gap, gap.max(1) * 2, gap / 2, lat, lat + gap, 2_000_000];
+            let mut v: Vec<u64> = (0..rng.range(2, 5)).map(|_| *rng.pick(&pool)).collect();
+            v.push(*rng.pick(&[1000u64, 5000, 50_000, 2_000_000]));
+            Rd::Timeout(v)
+        }
+        1 => {
+            // the read is dropped at its n-th suspension point: every small n in turn (a shuffled
+            // sweep of 1..6, cut to four or more), now and then a later one
+            let mut v: Vec<u32> = (1..=6).collect();
+            for i in (1..v.len()).rev() {
+                let j = rng.below(i as u64 + 1) as usize;
+                v.swap(i, j);
+            }
+            v.truncate(rng.range(4, 6) as usize);
+            if rng.chance(1, 3) {
+                v.push(*rng.pick(&[8u32, 20, 50, 300]));
+            }
+            Rd::Poll(v)
+        }
+        _ => Rd::Tick(*rng.pick(&[100u64, 500, 1000, 3000, gap.max(100), (gap / 2).max(100), lat.max(100), (gap + lat).max(100)])),
+    }
+}
+
+/// Reader-discipline family: the server-side readers wait for their reads inside
+/// `tokio::time::timeout` / `select!` and therefore DROP read futures that have not completed --
+/// on `Socket::recv`, `Socket::recv_msg` and `TcpStream::read`, stream and datagram sockets,
+/// paused clock and real multi-thread runtimes.  A read that did not return has consumed nothing:
+/// the oracle is the unchanged one (everything read, plus what a final drain of the socket
+/// returns, is the peer's stream).
+fn gen_cancel(rng: &mut Rng, i: u64) -> Scn {
+    let tcp = i % 5 != 4;
+    let mode = if i % 4 == 3 { RtMode::MultiThread(*rng.pick(&[2usize, 4, 16])) } else { RtMode::Paused };
+    let paused = mode == RtMode::Paused;
+    let mtu = *rng.pick(&[300u16, 576, 1500]);
+    let lat = *rng.pick(&[200u64, 1000]);
+    let gap = *rng.pick(&[0u64, 100, 1000, 3000, 3000]);
+    let n = rng.range(1, 3) as usize;
+    let faults = paused && tcp && rng.chance(1, 4);
+    let writes: Vec<Vec<u64>> = (0..n)
+        .map(|_| {
+            let k = rng.range(5, 40) as usize;
+            if tcp {
+                gen_small_writes(rng, k, mtu)
+            } else {
+                (0..k).map(|_| *rng.pick(&[1u64, 9, 60, 72, 200])).collect()
+            }
+        })
+        .collect();
+    Scn {
+        tcp,
+        mode,
+        mtu,
+        lat,
+        jit: if faults { 300 } else { 0 },
+        drop: if faults { *rng.pick(&[10u64, 50]) } else { 0 },
+        maxloss: 2,
+        seed: rng.next() % 1_000_000,
+        gap,
+        start: *rng.pick(&[0u64, 700]),
+        maxread: *rng.pick(&[0u64, 0, 100, 1460]),
+        rd: gen_rd(rng, i / 5 + i, gap, lat),
+        rapi: if tcp { [RApi::Stream, RApi::Recv, RApi::Msg][(i % 3) as usize] } else { RApi::Msg },
+        dur: if paused { 120_000_000 } else { 12_000_000 },
+        backlog: 8,
+        writes,
+        ..Scn::defaults()
+    }
+}
+
+/// Lifecycle family: sockets are closed / dropped while OTHER connections of the same machine and
+/// port carry data -- the listening socket after its clients are accepted (dropped, closed with
+/// `Socket::close`, a dropped `TcpListener`), the same followed by a second listen on the port
+/// with late clients, one accepted socket closed by its reader, one client closing after its
+/// last write.  Oracle unchanged: every accepted connection delivers exactly its peer's writes.
+fn gen_lifecycle(rng: &mut Rng, i: u64) -> Scn {
+    let kind = i % 5;
+    let tcp = kind == 3 || i % 4 != 3;
+    let mode = if i % 7 == 6 { RtMode::MultiThread(*rng.pick(&[2usize, 4, 16])) } else { RtMode::Paused };
+    let paused = mode == RtMode::Paused;
+    let mtu = *rng.pick(&[300u16, 576, 1500]);
+    let lat = *rng.pick(&[200u64, 1000]);
+    let gap = *rng.pick(&[1000u64, 3000, 10_000]);
+    let late = if kind == 2 { rng.range(1, 2) as usize } else { 0 };
+    let n = rng.range(2, 4) as usize + late;
+    let counts: Vec<usize> = (0..n).map(|_| rng.range(10, 40) as usize).collect();
+    let writes: Vec<Vec<u64>> = counts
+        .iter()
+        .map(|k| if tcp { gen_small_writes(rng, *k, mtu) } else { (0..*k).map(|_| *rng.pick(&[1u64, 9, 60, 72, 200])).collect() })
+        .collect();
+    // the early clients write for `span` microseconds: the listener goes away in the middle
+    let span = counts[..n - late].iter().map(|k| *k as u64 * gap).min().unwrap_or(gap);
+    let rapi = if !tcp { RApi::Msg } else { *rng.pick(&[RApi::Recv, RApi::Msg, RApi::Stream]) };
+    let mut scn = Scn {
+        tcp,
+        mode,
+        mtu,
+        lat,
+        seed: rng.next() % 1_000_000,
+        gap,
+        start: *rng.pick(&[0u64, 700]),
+        maxread: *rng.pick(&[0u64, 0, 1460]),
+        rapi,
+        rd: if rng.chance(1, 3) { gen_rd(rng, i, gap, lat) } else { Rd::Plain },
+        dur: if paused { 120_000_000 } else { 15_000_000 },
+        backlog: 8,
+        writes,
+        ..Scn::defaults()
+    };
+    let mid = 8 * lat + 3000 + span / 4 + rng.below(span / 2 + 1);
+    match kind {
+        0 | 1 | 2 => {
+            scn.lclose = mid;
+            scn.lhow_close = kind == 1 && rapi != RApi::Stream;
+            if kind == 2 {
+                scn.relisten = *rng.pick(&[1u64, 1000, 20_000]);
+                scn.late = late;
+            }
+        }
+        3 => {
+            let c = rng.below(n as u64) as usize;
+            scn.sclose = Some((c, scn.total(c) / 3));
+            if rng.chance(1, 2) {
+                scn.lclose = mid;
+            }
+        }
+        _ => {
+            // the client with the fewest writes is done first and closes
+            let c = (0..n).min_by_key(|c| counts[*c]).unwrap_or(0);
+            scn.cclose = Some(c);
+            if rng.chance(1, 2) {
+                scn.lclose = mid;
+                scn.lhow_close = rapi != RApi::Stream;
+            }
+        }
+    }
+    scn
+}
+
+/// fixed scenarios of the two families (every run starts its generated ones after these)
+fn fixed_disciplines() -> Vec<String> {
+    let base = "mtu=1500 lat=1000 jit=0 drop=0 dup=0 maxloss=1 start=0 adelay=0 rdelay=0 rgap=0 maxread=0 gapinject=0 intruder=0 backlog=8";
+    vec![
+        // a reader polling TcpStream::read next to other work that wins at the 1st..4th poll
+        format!("scn kind=tcp mode=paused {} seed=11 gap=3000 dur=60000000 rd=poll:1/2/3/4 rapi=stream writes=25x40", base),
+        // reads inside a time-out equal to the rhythm of the writes, and one-poll time-outs
+        format!("scn kind=tcp mode=paused {} seed=12 gap=3000 dur=60000000 rd=to:0/3000/1000/100000 rapi=stream writes=25x40", base),
+        format!("scn kind=tcp mode=paused {} seed=13 gap=1000 dur=60000000 rd=tick:1000 rapi=recv writes=7x30;300x12", base),
+        // the same sweep of suspension points on Socket::recv (reads smaller than the chunks, so
+        // the stored remainder of a chunk is in play) and on Socket::recv_msg
+        format!("scn kind=tcp mode=paused {} seed=20 gap=3000 dur=60000000 rd=poll:1/2/3/4/5 rapi=recv writes=25x40;300x12", base).replace("maxread=0", "maxread=7"),
+        format!("scn kind=tcp mode=paused {} seed=21 gap=0 dur=60000000 rd=poll:2/1/3/2/4 rapi=recv writes=25x40;300x12", base).replace("maxread=0", "maxread=100"),
+        format!("scn kind=tcp mode=paused {} seed=22 gap=3000 dur=60000000 rd=poll:1/2/3/4 rapi=msg writes=25x40", base),
+        format!("scn kind=udp mode=paused {} seed=14 gap=1000 dur=60000000 rd=poll:1/2/3 rapi=msg writes=9x20", base),
+        // the listening socket is dropped / closed while three accepted connections carry data
+        format!("scn kind=tcp mode=paused {} seed=15 gap=2000 dur=60000000 lclose=40000 lhow=drop writes=50x30;7x30;300x30", base),
+        format!("scn kind=tcp mode=paused {} seed=16 gap=2000 dur=60000000 rapi=stream lclose=40000 lhow=drop relisten=5000 late=1 writes=50x30;7x30;20x10", base),
+        format!("scn kind=udp mode=paused {} seed=17 gap=2000 dur=60000000 rapi=msg lclose=30000 lhow=close writes=9x30;60x30", base),
+        // one accepted socket closed by its reader, one client closing after its last write
+        format!("scn kind=tcp mode=paused {} seed=18 gap=2000 dur=60000000 sclose=0:300 writes=50x30;7x30", base),
+        format!("scn kind=tcp mode=paused {} seed=19 gap=2000 dur=60000000 cclose=1 writes=50x30;7x5", base),
+    ]
 }
 
 /// scenarios that every run starts with (design-phase candidates and their regressions)
@@ -1403,7 +2028,7 @@ fn run_one_case(spec: &str) -> CaseReport {
 }
 
 const RULE_PAIR: &str = "connected UDP socket pair on a loss-free network, paused current_thread runtime; 4..30 ops per case: datagrams of 0..40 bytes, recv(n) with n in {0,1,len-1,len,len+1,2*len,len+2,all,all+1,1000} (len = head message, all = everything pending) blocking and non-blocking, recv_msg; 1 in 25 cases floods 250..262 datagrams into the 255-slot channel before reading; non-trivial = some read ended inside the pending data or more than 8 ops; distinct = hash of the op lines";
-const RULE_STACK: &str = "full stack (SocketAPI, Tcp/Udp, Ipv4, Arp, Pci, Network): 1..6 clients against one listening server; per client 1..40 writes of 1 B..100 KB back-to-back or spaced (UDP: 1..40 datagrams of 0..2500 B), MTU in {100,120,300,576,1500,9000}, latency 0.2..5 ms, jitter up to 3 ms, drop 1..15 % with at most 1..3 consecutive losses per direction, duplicates 3 % on the paused runtime (thorough tier: jitter 0.3 ms + 1 % drop also on multi_thread); delayed accept, delayed/slow reader, read sizes 1..200000; burst family: 1..4 clients each issuing N back-to-back writes of 3..9 bytes, N in {300, 1100, 2500, 5000} or next to a power of two (255..4097), reader draining concurrently with reads >= 4096, on multi_thread(4) (N = 5000), multi_thread(16), the paused runtime, then random flavours incl. multi_thread(2); runtimes: paused current_thread and multi_thread with 2/4/16 workers; fixed scenarios first (20 back-to-back writes on mt:4 and paused, small reads, accept-gap injection, slow reader beyond 255 chunks, late accept beyond 255 chunks, datagrams with intruder); non-trivial = some client issues at least 2 writes; distinct = hash of the scenario line";
+const RULE_STACK: &str = "full stack (SocketAPI, Tcp/Udp, Ipv4, Arp, Pci, Network): 1..6 clients against one listening server; per client 1..40 writes of 1 B..100 KB back-to-back or spaced (UDP: 1..40 datagrams of 0..2500 B), MTU in {100,120,300,576,1500,9000}, latency 0.2..5 ms, jitter up to 3 ms, drop 1..15 % with at most 1..3 consecutive losses per direction, duplicates 3 % on the paused runtime (thorough tier: jitter 0.3 ms + 1 % drop also on multi_thread); delayed accept, delayed/slow reader, read sizes 1..200000; burst family: 1..4 clients each issuing N back-to-back writes of 3..9 bytes, N in {300, 1100, 2500, 5000} or next to a power of two (255..4097), reader draining concurrently with reads >= 4096, on multi_thread(4) (N = 5000), multi_thread(16), the paused runtime, then random flavours incl. multi_thread(2); runtimes: paused current_thread and multi_thread with 2/4/16 workers; reader-discipline family (the server-side readers wait for each read inside tokio::time::timeout with time-outs from one poll to seconds, inside select! next to work that wins at the n-th poll for n = 1..6 and later, or next to a ticking channel, and so DROP reads that have not completed, on Socket::recv, Socket::recv_msg and TcpStream::read, stream and datagram sockets, paused and multi_thread(2/4/16); a reader that starves drains its socket at the end); lifecycle family (the listening socket -- Socket or TcpListener -- dropped or closed while 2..4 accepted connections carry data, optionally a second listen on the port with late clients, one accepted socket closed by its reader, one client closing after its last write; stream and datagram); fixed scenarios first (20 back-to-back writes on mt:4 and paused, small reads, accept-gap injection, slow reader beyond 255 chunks, late accept beyond 255 chunks, datagrams with intruder); non-trivial = some client issues at least 2 writes; distinct = hash of the scenario line";
 
 pub fn run(args: &Args) {
     if is_worker(args) {
@@ -1429,6 +2054,23 @@ pub fn run(args: &Args) {
             let mut r = Rng::new(args.seed ^ 0xb0257);
             for i in 0..bursts {
                 specs.push(format!("stack {}", gen_burst(&mut r, i).to_line()));
+            }
+        }
+        let cancels: u64 = args.extra.get("cancels").and_then(|v| v.parse().ok()).unwrap_or(0);
+        let lifecycles: u64 = args.extra.get("lifecycles").and_then(|v| v.parse().ok()).unwrap_or(0);
+        if cancels + lifecycles > 0 {
+            for f in fixed_disciplines() {
+                specs.push(format!("stack {}", f));
+            }
+        }
+        {
+            let mut r = Rng::new(args.seed ^ 0xca9ce1);
+            for i in 0..cancels {
+                specs.push(format!("stack {}", gen_cancel(&mut r, i).to_line()));
+            }
+            let mut r = Rng::new(args.seed ^ 0x11fec7c1e);
+            for i in 0..lifecycles {
+                specs.push(format!("stack {}", gen_lifecycle(&mut r, i).to_line()));
             }
         }
         for i in 0..args.cases {
